@@ -100,7 +100,10 @@ structure HSt where
 
 def healAdvD : HealAdv HSt Nat Float where
   gen s _ ctx :=
-    ({ s with g := s.g + 1 }, genRaw (pick s.gs s.g 'g') s.g ctx)
+    -- script item `r`: the generator sets `loop.max_retries = 0`, `R`: adds 2 to it (then both return garbage)
+    let item := pick s.gs s.g 'g'
+    let mr' := if item = 'r' then 0 else if item = 'R' then s.mr + 2 else s.mr
+    ({ s with g := s.g + 1, mr := mr' }, genRaw item s.g ctx)
   fold s raw := ({ s with f := s.f + 1 }, foldOf (pick s.fs s.f 'A') s.f raw)
 
 def healObjD : HealObj HSt Nat Float where
@@ -184,23 +187,47 @@ def stepOut (item : Char) (g : Nat) : Out String :=
   | 'x' => .raise
   | _ => .ok s!"out <{g}>"
 
+/-- adversary calls of one kind after which the scripted callbacks raise (the harness's `Runaway`): a loop that lost
+    its bound - or whose bound the callbacks keep raising - must not hang the check -/
+def cap : Nat := 64
+
+def setRegen (s : SwSt) (f : Int → Int) : SwSt := { s with cfg := ⟨f s.cfg.maxRegen, s.cfg.maxSteps⟩ }
+def setSteps (s : SwSt) (f : Int → Int) : SwSt := { s with cfg := ⟨s.cfg.maxRegen, f s.cfg.maxSteps⟩ }
+
+/-- Callbacks that hold the swarm may assign its public limits while `supervise` runs: factory / summarizer items
+    `l` (`max_regenerations = 0`) and `g` (`+= 1`); step items `y` (`max_steps_per_worker = 0`), `Y` (`+= 1`),
+    `z` (`entropy_threshold = -1`: every full window collapses), `Z` (`= 2`: none does). -/
 def swarmAdvD : SwarmAdv SwSt Nat String (List Nat) Nat String where
   factory s name _ :=
+    if s.spawn ≥ cap then ({ s with spawn := s.spawn + 1, step := 0 }, .raise) else
     match pick s.fs s.spawn 'w' with
     | 'x' => ({ s with spawn := s.spawn + 1, step := 0 }, .raise)
     | 'r' =>
       if s.spawn = 0 then ({ s with spawn := s.spawn + 1, step := 0, last := name }, .ok name)
       else ({ s with spawn := s.spawn + 1, step := 0 }, .ok s.last)
+    | 'l' => (setRegen { s with spawn := s.spawn + 1, step := 0, last := name } (fun _ => 0), .ok name)
+    | 'g' => (setRegen { s with spawn := s.spawn + 1, step := 0, last := name } (· + 1), .ok name)
     | _ => ({ s with spawn := s.spawn + 1, step := 0, last := name }, .ok name)
   step s _ _ :=
+    if s.step ≥ cap then ({ s with step := s.step + 1 }, .raise) else
     let script := match s.ss with
       | [] => []
       | _ => s.ss.getD (min (s.spawn - 1) (s.ss.length - 1)) []
-    ({ s with step := s.step + 1, g := s.g + 1 }, stepOut (pick script s.step 'u') s.g)
+    let item := pick script s.step 'u'
+    let s' := { s with step := s.step + 1, g := s.g + 1 }
+    let s'' := match item with
+      | 'y' => setSteps s' (fun _ => 0)
+      | 'Y' => setSteps s' (· + 1)
+      | 'z' => { s' with thr := -1.0 }
+      | 'Z' => { s' with thr := 2.0 }
+      | _ => s'
+    (s'', stepOut item s.g)
   summarize s _ :=
     match pick s.ms s.summ 'h' with
     | 'x' => ({ s with summ := s.summ + 1 }, .raise)
     | 'e' => ({ s with summ := s.summ + 1 }, .ok [])
+    | 'l' => (setRegen { s with summ := s.summ + 1 } (fun _ => 0), .ok [s.summ + 10])
+    | 'g' => (setRegen { s with summ := s.summ + 1 } (· + 1), .ok [s.summ + 10])
     | _ => ({ s with summ := s.summ + 1 }, .ok [s.summ + 10])
   wid w := w
 
@@ -213,11 +240,19 @@ def swarmCode (thr : Float) : SwarmCode String where
   distinct l := l.eraseDups.length
   low u n := Float.ofNat u / Float.ofNat n < 1.0 - thr
 
+/-- the limits are read off the environment state wherever the code reads them -/
+def swarmLiveD : SwarmLive SwSt String where
+  regenOf s := s.cfg.maxRegen
+  stepsOf s := s.cfg.maxSteps
+  marker := strMarker
+  distinct l := l.eraseDups.length
+  lowOf s u n := (swarmCode s.thr).low u n
+
 def swarmObjD : SwarmObj SwSt Nat String (List Nat) Nat String where
   adv := swarmAdvD
-  cfgOf s := s.cfg
-  codeOf s := swarmCode s.thr
+  live := swarmLiveD
   hints0 := []
+  fuel := 3 * cap      -- the scripted factory raises after `cap` calls, so the model never runs out
 
 def showHints (h : List Nat) : String := if h.isEmpty then "-" else ".".intercalate (h.map fun n => s!"h{n}")
 
@@ -375,7 +410,10 @@ def step (st : DSt) (toks : List String) : DSt × String :=
     let scripts := if ss = "-" then [] else (ss.splitOn "|").map scriptOf
     let a := objStep swarmObjD.call st.sw st.ss (.assign (swScripts (scriptOf fs) scripts (scriptOf ms)))
     match objStep swarmObjD.call a.1 a.2.1 (.call "T<7>") with
-    | (sw', s', some r) => ({ st with ss := s', sw := sw' }, showSwarm r ++ " ## " ++ swarmTags a.2.1.cfg r)
+    | (sw', s', some r) =>
+      let live := if r.reads.any (fun rm => rm.1 != a.2.1.cfg.maxRegen || (rm.2 != a.2.1.cfg.maxSteps && rm.2 != 0))
+        then " swarm:reassigned" else ""
+      ({ st with ss := s', sw := sw' }, showSwarm r.toRun ++ " ## " ++ swarmTags a.2.1.cfg r.toRun ++ live)
     | _ => (st, "bad-op")
   | ["tools", mi, ae, hs, ha, ps, ts, cs] =>   -- a fresh nucleus, one call
     (st, (toolLine [] mi ae hs ha ps ts cs).2)
@@ -386,8 +424,6 @@ def step (st : DSt) (toks : List String) : DSt × String :=
     let r := toolLine st.nlog mi ae hs ha ps ts cs
     ({ st with nlog := r.1 }, r.2 ++ " tool:live")
   | ["retools", _, _, _] => (st, "ok")   -- re-entrant tool adversary: judged by the harness oracle only
-  | ["hre", _, _, _] => (st, "ok")       -- generator that re-assigns loop.max_retries while heal runs: oracle only
-  | ["sre", _, _, _, _] => (st, "ok")    -- factory / worker that re-assign the swarm budgets while supervise runs: oracle only
   | _ => (st, "bad-op")
 
 def main : IO Unit := runDriver ({} : DSt) step
